@@ -74,6 +74,8 @@ pub const FLAG_INNER_GAPS: u32 = 8;
 pub const FLAG_REV_RECORDS: u32 = 16;
 /// BCH: pointer table after the objects; CGFX: the DICT entry refers to its own copy of the name
 pub const FLAG_ALT_TABLE: u32 = 32;
+/// textures whose payload bytes are equal share ONE stored payload (whatever their formats)
+pub const FLAG_SHARE_PAYLOADS: u32 = 64;
 
 impl Layout {
     pub fn canonical() -> Layout {
@@ -188,7 +190,15 @@ fn payload_blob(texs: &[TexSpec], l: &Layout) -> (Vec<u8>, Vec<usize>) {
     if l.has(FLAG_INNER_GAPS) {
         blob.extend(std::iter::repeat(FILL).take(16));
     }
+    let mut placed: Vec<usize> = Vec::new();
     for i in order_of(n, 0, l.has(FLAG_REV_PAYLOADS)) {
+        if l.has(FLAG_SHARE_PAYLOADS) {
+            if let Some(&j) = placed.iter().find(|&&j| texs[j].payload == texs[i].payload) {
+                off[i] = off[j];
+                continue;
+            }
+        }
+        placed.push(i);
         off[i] = blob.len();
         blob.extend_from_slice(&texs[i].payload);
         if l.has(FLAG_INNER_GAPS) {
